@@ -334,26 +334,6 @@ Section Sym.
     split; intros [A B]; split; auto; [now rewrite B|now apply tw_inj].
   Qed.
 
-  Definition peqb (x y : pos) : bool :=
-    forallb (fun i => cell_eqb (cell (fst x) i) (cell (fst y) i)) sq64 && Bool.eqb (snd x) (snd y).
-
-  Lemma cell_eqb_refl (x : option (bool * piece)) : cell_eqb x x = true.
-  Proof. destruct x as [[[] []]|]; reflexivity. Qed.
-
-  Lemma peqb_true x y : peq x y -> peqb x y = true.
-  Proof.
-    intros [A B]. unfold peqb. apply andb_true_intro. split.
-    - apply forallb_forall. intros i Hi. apply In_sq64 in Hi. rewrite (A i Hi). apply cell_eqb_refl.
-    - rewrite B. destruct (snd y); reflexivity.
-  Qed.
-
-  Lemma peqb_peq x y : peqb x y = true -> peq x y.
-  Proof.
-    unfold peqb. intros H. apply andb_prop in H. destruct H as [A B]. split.
-    - intros i Hi. apply cell_eqb_eq. exact (forall_sq64 _ A i Hi).
-    - now apply eqb_prop.
-  Qed.
-
   Lemma count_img (R : pos -> pos -> Prop) (f f' : pos -> bool) G G' : Forall2 R G G' ->
     (forall x x', In x G -> In x' G' -> R x x' -> f' x' = true -> f x = true) ->
     (length (filter f' G') <= length (filter f G))%nat.
